@@ -90,6 +90,11 @@ def script_source(o):
         "Print WF."])
 
 
+AST_KINDS = ["StarExpr", "ArrayType", "MapType", "ChanType", "ParenExpr", "FuncType", "StructType", "InterfaceType", "Ident"]
+# fields of those nodes that hold an expression / a field list but no type to descend into
+AST_NOT_TYPES = {("ArrayType", "Len"): "the length of an array type", ("FuncType", "TypeParams"): "nil in a type expression (func types have no type parameters)"}
+
+
 def fqn_source(strings):
     rows = ";\n".join(cs(x) for x in strings)
     return "\n".join([
@@ -98,7 +103,11 @@ def fqn_source(strings):
         "Import ListNotations. Local Open Scope string_scope.",
         "Definition fqns : list string := [\n%s\n]." % rows,
         "Definition FQ := Eval vm_compute in (map show_split fqns).",
-        "Print FQ."])
+        "Print FQ.",
+        "From RG.Types Require Import TypeExprParse.",
+        "Definition SIG := Eval vm_compute in (map (fun k => String.concat \",\" (map (fun lb : string * bool => fst lb ++ (if snd lb then \":true\" else \":false\")) (ast_sig k)))",
+        "  [%s])." % "; ".join(cs(k) for k in AST_KINDS),
+        "Print SIG."])
 
 
 def parse_gen_scope(text, name):
@@ -123,21 +132,48 @@ def run(c):
               "value per candidate package path. A case (file, group, rule) is non-trivial when the name's package is bound by an "
               "Import() of that or another group of the file, or the expected outcome is a load error, or the rule reports at least one "
               "probe; a swept name when several packages compete for it or the table leaves it out; distinct by (imports of all groups, "
-              "skip flags, the rule's request) / (name)")
+              "skip flags, the rule's request) / (name). Type-pattern POSITIONS: the qualified name under every type constructor parseExpr "
+              "descends into (pointer, slice, array, map key / element, channel in three directions, function parameter / result alone and "
+              "among others, struct field alone and among others, parentheses, maps whose other half is another qualified name), alone and "
+              "nested to depth 3: 35 shapes with a bound name probed with typed values of that shape over every package of the name's family "
+              "(go/types evaluates the same type expression); every wrapper, every ordered pair of the ten core wrappers and 40 seeded "
+              "triples as files that must NOT load (name bound by nothing / by another group of the file / by a skipped group / the group "
+              "imports something else / a misspelt std name next to rules that resolve / a bound name inside a ConvertibleTo or "
+              "AssignableTo type string), each in engines of its own; typematch.Parse directly on all 5219 compositions up to depth 3 with "
+              "the name bound and unbound. Fully-qualified names: packages whose import paths have dots in the last element "
+              "(gopkg.in/yaml.v3 -- a module of its own --, check.v1, api.v2 next to a decoy api), in a middle element (v1.2/plain), twice "
+              "in the last element (multi.dot.v2), importable by the engine, in Implements, in custom-filter GetType / GetInterface (one "
+              "lookup per file, engines of their own; vendored copies named in full), as Import() paths (the bound name is the last path "
+              "element) with pkg.T patterns / Implements / HasMethod; engineState.FindType alone on ~220 (path, name) pairs over in-memory "
+              "packages with dots everywhere and a package at every wrong cut. A position case is non-trivial by construction; an FQN case "
+              "when its path has a dot beyond the first element")
     c.trusted += [
         "go/types + the engine's importer for what packages contain (Section variable `world` of ImportsTab.v; the harness fills it from go/types)",
         "github.com/quasilyte/stdinfo.PathByName as the stdlib default table (read by the harness for the names used)",
-        "string splitting of qualified names (pkg.T vs path/to/pkg.T) and irconv's path.Base(Import path) are outside the model",
+        "irconv's path.Base(Import path) (the name an Import() binds is the last path element) and unwrapInterfaceExpr's decision between "
+        "`pkg.T` and a fully-qualified name (strings.Cut + token.IsIdentifier) are outside the model; the harness' oracle applies them",
         "harness/cmd/c20 (generator, Go-side documented-precedence oracle, go/types verdict table)",
     ]
     c.notes += [
-        "SinkType.Is shares the Type.Is resolver code path (typematch.Parse with the loader's table) and is not exercised separately; "
         "custom-filter GetType/GetInterface (fully-qualified names, resolved at run time) are exercised against the oracle in "
-        "hand-written scenarios but are not part of the Coq model; an unresolvable name there panics at run time (not claimed)",
+        "hand-written and random scenarios; of the Coq model they share the cut of the name (FqnSplit); an unresolvable name there "
+        "panics at run time (not claimed)",
+        "Import(`gopkg.in/yaml.v3`) binds `yaml.v3` (path.Base), which no `pkg.T` can spell: such a package is reachable through "
+        "fully-qualified names only and `yaml.T` stays unbound (a load error) -- the oracle follows this documented reading (dsl: "
+        "Import(`a/b/foo`) makes `foo.Bar` mean a/b/foo.Bar); HasMethod takes no fully-qualified receiver (its argument must parse as "
+        "pkg.Type.Method)",
         "every file is also loaded through VerifConvertAST + LoadFromIR into a second engine and must behave the same",
         "vendored copies are covered for Type.Is (path stripped at match time) and Implements/HasMethod (method sets)",
     ]
     c.trusted += [
+        "go2coq c20parse: fail-closed transcription of every `case *ast.X:` clause of typematch.parseExpr into the nil-flow language of "
+        "RG.Types.TypeExprParse (recursive calls, nil tests, conditions that read no pointer for nil-ness as COpaque, appends, loops over "
+        "field lists, returns); the *ast.SelectorExpr clause is read in its exact shape and translated to Gallina. The semantics of that "
+        "language (run_clause; opaque conditions answered by an arbitrary oracle stream) and `ast_sig` are hand-written; ast_sig is compared "
+        "with go/ast by reflection on every run (ArrayType.Len and FuncType.TypeParams are no types to descend into)",
+        "go2coq c20fqn: fail-closed reader of engineState.FindType's four splitting statements (strings.LastIndexByte / two slices) into "
+        "RG.Types.FqnSplit.go_last_index_byte + RG.Types.GoStrings.go_slice; who consumes the two halves and the bodies of lookupType / "
+        "findDependency are pinned as text",
         "go2coq c20tables: reads the creators / mutators / lookup sites of the import table, the holders of parsed patterns, and "
         "the PathByName / PackagesList literals of the stdinfo module version that /repo/go.mod selects (`go list -m`)",
         "stdinfo's import frequencies as the meaning of 'the more common package' (documented in stdinfo.go)",
@@ -370,6 +406,19 @@ def run(c):
                             c.fail("corr", "model split_fqn cuts a fully-qualified name elsewhere than the harness joined it", input={"fqn": k},
                                    expected="%s|%s" % fq_strings[k], observed=g_)
                     c.coverage["fqn_strings_cut_by_the_model"] = len(keys)
+                # K: the model's picture of go/ast (which fields of a node are types a clause has to descend into) against go/ast itself
+                ms = re.search(r"SIG\s*=\s*\[(.*?)\]\s*:\s*list string", outq, re.S)
+                sig = re.findall(r'"([^"]*)"', ms.group(1)) if ms else None
+                refl = o.get("ast_fields")
+                if sig is None or len(sig) != len(AST_KINDS) or not refl:
+                    c.obligation("ast-sig:" + tag, False, "no ast_sig / reflected go/ast fields to compare")
+                else:
+                    for k, row in zip(AST_KINDS, sig):
+                        c.evaluations += 1
+                        want = ["%s:%s" % (f, l) for f, l in refl.get(k, []) if (k, f) not in AST_NOT_TYPES]
+                        if [x for x in row.split(",") if x] != want:
+                            c.fail("corr", "the model's ast_sig (type-valued fields of a go/ast node) differs from go/ast", input={"node": "ast." + k},
+                                   expected=want, observed=row)
         # ---- the table itself: scripted Enter / Load / Leave histories, the whole visible table after every step
         scripts = o.get("scripts") or []
         if not scripts:
